@@ -1,6 +1,7 @@
 package values
 
 import (
+	"reflect"
 	"sync"
 )
 
@@ -8,10 +9,22 @@ type drop interface {
 	ToLiquid() any
 }
 
+var dropType = reflect.TypeOf((*drop)(nil)).Elem()
+
+// nilDrop reports whether d is a nil pointer to a type whose ToLiquid method has a value
+// receiver. Calling the method would dereference the nil pointer; such a drop is nil.
+func nilDrop(d drop) bool {
+	rv := reflect.ValueOf(d)
+	return rv.Kind() == reflect.Ptr && rv.IsNil() && rv.Type().Elem().Implements(dropType)
+}
+
 // ToLiquid converts an object to Liquid, if it implements the Drop interface.
 func ToLiquid(value any) any {
 	switch value := value.(type) {
 	case drop:
+		if nilDrop(value) {
+			return nil
+		}
 		return value.ToLiquid()
 	default:
 		return value
